@@ -94,6 +94,13 @@ fn apply(op: &Op, b: &mut RegExpBuilder, m: &mut Cfg) -> Result<(), String> {
     Ok(())
 }
 
+/// Reference value: the canonical build computed on a brand-new thread, so that thread-local state left behind
+/// by earlier builds of the exploring thread (caches, scratch buffers) cannot leak into the expectation.
+fn fresh_thread_build(cfg: Cfg, tcs: &[String]) -> Result<String, String> {
+    let t = tcs.to_vec();
+    std::thread::spawn(move || cfg.build(&t)).join().unwrap_or_else(|_| Err("reference thread panicked".into()))
+}
+
 fn canonical(list: &[String]) -> Vec<String> {
     let mut v = list.to_vec();
     v.sort();
@@ -125,7 +132,7 @@ fn bfs(ctx: &Ctx, initial: &[String], ops: &[Op], st: &mut HStats, max_states: u
             return;
         }
         // invariant in this state
-        let expect = refcache.entry(m).or_insert_with(|| m.build(&canon)).clone();
+        let expect = refcache.entry(m).or_insert_with(|| fresh_thread_build(m, &canon)).clone();
         let observe = |mut bb: RegExpBuilder| -> Result<String, String> {
             std::panic::catch_unwind(std::panic::AssertUnwindSafe(move || bb.build())).map_err(panic_msg)
         };
@@ -255,7 +262,7 @@ fn orders(ctx: &Ctx) {
             let canon = canonical(&t);
             for cfg in &cfgs {
                 ctx.run.mark_nontrivial(hash_case(&t, cfg));
-                let expect = cfg.build(&canon);
+                let expect = fresh_thread_build(*cfg, &canon);
                 let mut variants = permutations(&t);
                 for j in 0..t.len() {
                     for pos in 0..=t.len() {
@@ -399,33 +406,43 @@ fn n_engine(ctx: &Ctx) {
 
 // ---------------------------------------------------------------- lazy tables, threads
 
-/// Digest of the outputs of a fixed family of builds (used to compare separate processes = fresh hash seeds).
-fn process_digest() -> (u64, usize) {
-    let unis = [Universe::new("U_adv(A_cls)", A_CLS, 2, 2, false), Universe::new("U_ab3{a,b}", &["a", "b"], 3, 3, false)];
-    let cfgs = [Cfg::new(0), Cfg::new(R), Cfg::new(D), Cfg::new(W | D | R), Cfg::new(I | NE)];
-    let mut h: u64 = 0xcbf29ce484222325;
-    let mut n = 0;
-    for u in &unis {
+/// Order-independent digest of the outputs of a fixed family of builds, evaluated in one of several orders
+/// (separate processes = fresh hash seeds; different orders = different histories of process-wide state).
+fn process_digest(order: usize) -> (u64, usize) {
+    let unis = [Universe::new("U_adv(A_cls)", A_CLS, 2, 2, false), Universe::new("U_ab3{a,b}", &["a", "b"], 3, 3, false), crate::props::c05::u_rep_single(&["a", "b"], 6)];
+    let cfgs = [Cfg::new(0), Cfg::new(R), Cfg::new(D), Cfg::new(W | D | R), Cfg::new(I | NE), Cfg::new(R | G), Cfg::new(R | X), Cfg::new(R | G | X | E)];
+    let mut cases: Vec<(usize, usize, usize)> = vec![];
+    for (ui, u) in unis.iter().enumerate() {
         for i in 0..u.len() {
-            let t = u.set(i);
-            for c in &cfgs {
-                let o = c.build(&t).unwrap_or_else(|e| format!("<panic {e}>"));
-                for b in o.bytes().chain([0xff]) {
-                    h = (h ^ b as u64).wrapping_mul(0x100000001b3);
-                }
-                n += 1;
+            for ci in 0..cfgs.len() {
+                cases.push((ui, i, ci));
             }
         }
     }
-    (h, n)
+    match order % 4 {
+        1 => cases.reverse(),
+        2 => cases.sort_by_key(|c| (c.2, c.0, c.1)),
+        3 => cases.sort_by_key(|c| (std::cmp::Reverse(c.2), c.1, c.0)),
+        _ => {}
+    }
+    let mut sum: u64 = 0;
+    for (ui, i, ci) in &cases {
+        let o = cfgs[*ci].build(&unis[*ui].set(*i)).unwrap_or_else(|e| format!("<panic {e}>"));
+        let mut h: u64 = 0xcbf29ce484222325 ^ ((*ui as u64) << 48) ^ ((*i as u64) << 8) ^ (*ci as u64);
+        for b in o.bytes() {
+            h = (h ^ b as u64).wrapping_mul(0x100000001b3);
+        }
+        sum = sum.wrapping_add(h);
+    }
+    (sum, cases.len())
 }
 
 fn process_seeds(ctx: &Ctx) {
     let exe = std::env::current_exe().expect("current_exe");
-    let (own, n) = process_digest();
+    let (own, n) = fresh_thread(|| process_digest(0));
     let procs = if ctx.run.is_thorough() { 16 } else { 4 };
     let results = Mutex::new(BTreeSet::new());
-    par_for(procs, |_| match std::process::Command::new(&exe).args(["C10-child", "digest"]).output() {
+    par_for(procs, |k| match std::process::Command::new(&exe).args(["C10-child", "digest", &k.to_string()]).output() {
         Ok(o) if o.status.success() => {
             results.lock().unwrap().insert(String::from_utf8_lossy(&o.stdout).trim().to_string());
         }
@@ -436,14 +453,19 @@ fn process_seeds(ctx: &Ctx) {
     seen.insert(format!("{own:016x}"));
     ctx.run.evals.fetch_add((n * (procs + 1)) as u64, Ordering::Relaxed);
     if seen.len() > 1 {
-        ctx.run.violation(viol("C10", "determinism", "process-sensitive (fresh hash seeds)".into(), &[], &Cfg::new(0), "", json!({"distinct_digests": seen.iter().collect::<Vec<_>>(), "builds_per_process": n})));
+        ctx.run.violation(viol("C10", "determinism", "process- or history-sensitive (fresh hash seeds, different evaluation orders)".into(), &[], &Cfg::new(0), "", json!({"distinct_digests": seen.iter().collect::<Vec<_>>(), "builds_per_process": n})));
     }
-    ctx.run.space(json!({"engine": "separate processes (fresh per-process hash seeds): digest of a fixed family of builds compared across processes and with this process", "processes": procs + 1, "builds_per_process": n, "distinct_digests": seen.len()}));
+    ctx.run.space(json!({"engine": "separate processes (fresh per-process hash seeds), each evaluating the same family of builds in a different order (natural, reversed, settings-major, reverse-settings-major): order-independent digests compared across processes and with a fresh thread of this process", "processes": procs + 1, "builds_per_process": n, "distinct_digests": seen.len()}));
+}
+
+fn fresh_thread<T: Send + 'static, F: FnOnce() -> T + Send + 'static>(f: F) -> T {
+    std::thread::spawn(f).join().expect("helper thread")
 }
 
 pub fn child_lazy(args: &[String]) -> i32 {
     if args[0] == "digest" {
-        println!("{:016x}", process_digest().0);
+        let order: usize = args.get(1).and_then(|x| x.parse().ok()).unwrap_or(0);
+        println!("{:016x}", process_digest(order).0);
         return 0;
     }
     // C10-child <perm as digits of 0,1,2>: first-use order of the three lazily built range tables
